@@ -108,6 +108,10 @@ def walk (v : View) : List Tok → Option View
 def specOK (v : View) (ev : Ev) (toks : List Tok) : Bool :=
   (walk (applyEv v ev (toks == [Tok.storeErr])) toks).isSome
 
+/-- the check for a stimulus that is an answer which is neither a sample nor a timeout: the monitor's picture is
+    unchanged (the share stays pending: it was not retrieved), the actions are walked as usual -/
+def specBadAnswer (v : View) (toks : List Tok) : Bool := (walk v toks).isSome
+
 def firstBad (v : View) : List Tok → Option Tok
   | [] => none
   | t :: ts => match onTok v t with
